@@ -272,3 +272,202 @@ Section World.
     - cbn [fst]. rewrite !batches_of_app, batches_of_map, H3, H2, Hobs, batches_of_app. reflexivity.
   Qed.
 End World.
+
+(* ------------------------------------------------------------------ overshoot *)
+Lemma frames_size_shift fsz : forall l a, frames_size fsz a l = a + frames_size fsz 0 l.
+Proof.
+  unfold frames_size. induction l as [|f r IH]; intro a; cbn [fold_left]; [lia|].
+  rewrite IH, (IH (0 + fsz f)). lia.
+Qed.
+
+Lemma frames_size_app fsz a l1 l2 : frames_size fsz a (l1 ++ l2) = frames_size fsz (frames_size fsz a l1) l2.
+Proof. apply fold_left_app. Qed.
+
+Lemma single_not_snoc {A} (g : A) pre last : [g] = pre ++ [last] -> pre = [].
+Proof. destruct pre as [|p pre]; [reflexivity|]. intro H. inversion H. destruct pre; discriminate. Qed.
+
+Lemma overshoot_pre fsz cfg lag c : (forall z, lag z = z) -> cap cfg = Some c ->
+  forall sts i z pre last t,
+  turn_groups fsz (go_of cfg lag) sts i z = (pre ++ [last], t) -> pre <> [] -> frames_size fsz z (concat pre) < c.
+Proof.
+  intros Hlag Hcap. induction sts as [|x r IH]; intros i z pre last t H Hne; cbn [turn_groups] in H.
+  - inversion H. destruct pre; discriminate.
+  - destruct (exec_step true (Some x)) as [fs [|]|e];
+      try (inversion H as [[H1 H2]]; apply single_not_snoc in H1; contradiction).
+    destruct (go_of cfg lag _) eqn:G.
+    + destruct (turn_groups fsz (go_of cfg lag) r (S i) _) as [gs' t'] eqn:E. inversion H as [[H1 H2]]. subst t'.
+      destruct pre as [|p pre']; [contradiction|]. inversion H1; subst p gs'. clear H1 H.
+      destruct pre' as [|q pre''].
+      * cbn [concat]. rewrite app_nil_r. unfold go_of in G. rewrite Hcap in G. cbn in G. rewrite Hlag in G.
+        apply N.ltb_lt in G. exact G.
+      * cbn [concat]. rewrite frames_size_app. apply (IH _ _ _ _ _ E). discriminate.
+    + inversion H as [[H1 H2]]. apply single_not_snoc in H1. contradiction.
+Qed.
+
+Lemma overshoot_body fsz cfg lag c sts i z pre last t :
+  (forall z, lag z = z) -> cap cfg = Some c ->
+  turn_groups fsz (go_of cfg lag) sts i z = (pre ++ [last], t) -> pre <> [] ->
+  frames_size fsz z (concat (pre ++ [last])) < c + group_size fsz last.
+Proof.
+  intros Hlag Hcap H Hne. pose proof (overshoot_pre fsz cfg lag c Hlag Hcap _ _ _ _ _ _ H Hne) as Hp.
+  rewrite concat_app, frames_size_app. cbn [concat]. rewrite app_nil_r. rewrite frames_size_shift. unfold group_size. lia.
+Qed.
+
+(* ------------------------------------------------------------------ resume-token bytes *)
+Lemma resume_roundtrip st call b :
+  enc_resume st call = Some b ->
+  dec_resume b = Some (st, match call with Some [] => None | x => x end).
+Proof.
+  unfold enc_resume, dec_resume. intro H. rewrite (dec_enc resume_layout _ _ eq_refl H).
+  destruct call as [[|x c]|]; reflexivity.
+Qed.
+
+Lemma resume_encodes st call :
+  bytes_ok st = true -> bytes_ok (match call with Some c => c | None => [] end) = true -> N.of_nat (length st) < 4294967296 ->
+  exists b, enc_resume st call = Some b.
+Proof.
+  intros H1 H2 H3. unfold enc_resume, resume_layout. cbn [enc enc_field].
+  assert (Hw : wmax W32 = 4294967296) by reflexivity. rewrite Hw.
+  apply N.ltb_lt in H3. rewrite H3, H1. cbn [andb enc enc_field]. rewrite H2. eexists. reflexivity.
+Qed.
+
+(* ------------------------------------------------------------------ next_with_token and resumption *)
+Section Resume.
+  Variable progs : N -> stream_prog.
+
+  Lemma go_none cfg lag : cap cfg = None -> forall z, go_of cfg lag z = false.
+  Proof. intros H z. unfold go_of. rewrite H. reflexivity. Qed.
+
+  Lemma turn_groups_nogo fsz go sts i z : (forall z, go z = false) ->
+    turn_groups fsz go sts i z =
+    match sts with
+    | [] => ([], None)
+    | x :: r => match exec_step true (Some x) with
+                | SErr e => ([[FErr e]], None)
+                | SFrames fs true => ([fs], None)
+                | SFrames fs false => ([fs], Some (S i))
+                end
+    end.
+  Proof. intro H. destruct sts as [|x r]; [reflexivity|]. cbn [turn_groups]. destruct (exec_step true (Some x)) as [fs [|]|e]; try reflexivity. rewrite H. reflexivity. Qed.
+
+  Lemma nwt_scan_logs : forall ls q seen,
+    (logs_go CbRecord ls = true -> nwt_scan (map FLog ls ++ q) seen = nwt_scan q seen) /\
+    (logs_go CbRecord ls = false -> exists e, nwt_scan (map FLog ls ++ q) seen = inl (Some e)).
+  Proof.
+    induction ls as [|m r IH]; intros q seen; cbn [logs_go map app nwt_scan].
+    - split; [reflexivity|discriminate].
+    - destruct (log_event CbRecord m) as [e go]. cbn [snd]. destruct go; cbn [andb].
+      + apply IH.
+      + split; [discriminate|]. intros _. exists e. reflexivity.
+  Qed.
+
+  (* the first n steps each emit one batch, do not finish, do not raise, and their logs are dispatched *)
+  Fixpoint good_prefix (sts : list step) (n : nat) {struct n} : option (list batch) :=
+    match n with
+    | O => Some []
+    | S n' =>
+        match sts with
+        | [] => None
+        | x :: r =>
+            match sraise x, fin x, emit x, logs_go CbRecord (slogs x) with
+            | None, false, Some b, true => option_map (cons b) (good_prefix r n')
+            | _, _, _, _ => None
+            end
+        end
+    end.
+
+  Lemma good_obs : forall n sts bs, good_prefix sts n = Some bs ->
+    emitted sts = bs ++ emitted (skipn n sts).
+  Proof.
+    unfold emitted. induction n as [|n IH]; intros sts bs H; cbn [good_prefix] in H.
+    - inversion H; subst. reflexivity.
+    - destruct sts as [|x r]; [discriminate|].
+      destruct (sraise x) eqn:E1; [discriminate|]. destruct (fin x) eqn:E2; [discriminate|].
+      destruct (emit x) as [b|] eqn:E3; [|discriminate]. destruct (logs_go CbRecord (slogs x)) eqn:E4; [|discriminate].
+      destruct (good_prefix r n) as [bs'|] eqn:E5; [|discriminate]. cbn in H. inversion H; subst bs.
+      cbn [obs_prod is_zero opred option_map skipn]. rewrite (exec_prod x), E1, E2, E3, E3. rewrite deliver_split, E4.
+      rewrite batches_of_app, batches_log_events. cbn [app]. change (EBatch b :: ?t) with ([EBatch b] ++ t).
+      rewrite batches_of_app. cbn [batches_of flat_map app]. rewrite (IH _ _ E5). reflexivity.
+  Qed.
+
+  Lemma nth_single {A} (x : A) k y : nth_error [x] k = Some y -> k = O /\ y = x.
+  Proof. destruct k as [|k]; cbn; intro H; [inversion H; split; reflexivity|destruct k; discriminate]. Qed.
+
+  Lemma dead_no_token : forall fuel w ss rs w2,
+    s_ct ss = None -> (length (s_pend ss) <= 1)%nat -> nwt_all progs fuel w ss = (rs, w2) ->
+    forall k b tok, nth_error rs k <> Some (NItem b (Some tok)).
+  Proof.
+    induction fuel as [|f IH]; intros w ss rs w2 Hct Hp H k b tok; cbn [nwt_all] in H.
+    - inversion H. destruct k; discriminate.
+    - unfold nwt in H. destruct (s_pend ss) as [|b0 [|b1 rest]] eqn:EP.
+      + rewrite Hct in H. destruct (s_fin ss); inversion H; intro Hn; apply nth_single in Hn as [_ Hn]; discriminate.
+      + unfold resume_tok in H. cbn [s_ct] in H. rewrite Hct in H.
+        destruct (nwt_all progs f w _) as [rs' w'] eqn:E. inversion H; subst rs w2.
+        destruct k as [|k]; cbn [nth_error]; [discriminate|].
+        apply (IH _ _ _ _ eq_refl (Nat.le_0_l 1) E).
+      + cbn [length] in Hp. lia.
+  Qed.
+
+  Variables (key cid : N) (curpid cp : option N).
+  Let pid := the_pid curpid cp.
+  Let kt := mkkt key cid cp.
+
+  Lemma skipn_cons_next {A} (l : list A) i x r : skipn i l = x :: r -> skipn (S i) l = r.
+  Proof. revert l. induction i as [|i IH]; intros l H; cbn in *; [subst; reflexivity|]. destruct l; [discriminate|]. apply IH. exact H. Qed.
+
+  (* a session positioned at cursor i with nothing pending, on an uncapped worker *)
+  Lemma nwt_from : forall fuel i w ss rs w2 k b tok,
+    cap (w_cfg w) = None -> worker_ok key cid cp w ->
+    s_pend ss = [] -> s_fin ss = false -> s_ct ss = Some (mkct key cid curpid i) -> s_kt ss = Some kt ->
+    nwt_all progs fuel w ss = (rs, w2) -> nth_error rs k = Some (NItem b (Some tok)) ->
+    tok = (mkct key cid curpid (i + S k), Some kt) /\
+    exists bs, good_prefix (skipn i (steps (progs pid))) (S k) = Some bs /\ items_batches (firstn (S k) rs) = bs.
+  Proof.
+    induction fuel as [|f IH]; intros i w ss rs w2 k b tok Hcap Hw Hp Hfin Hct Hkt H Hn; cbn [nwt_all] in H.
+    { inversion H; subst. destruct k; discriminate. }
+    unfold nwt in H. rewrite Hp, Hfin, Hct, Hkt in H. unfold exch in H.
+    destruct (resolve_ok key cid cp w (mkct key cid curpid i) kt Hw eq_refl eq_refl eq_refl eq_refl eq_refl)
+      as [w' [Hr [[Hk' [Hc' [Hl' He']]] Hw']]].
+    rewrite Hr in H. cbn [ct_i ct_pid ct_cid mkct] in H. unfold eff_pid in H. cbn [ct_pid] in H. fold (the_pid curpid cp) in H. fold pid in H.
+    rewrite (turn_groups_nogo _ _ _ _ _ (go_none _ _ Hcap)) in H.
+    destruct (skipn i (steps (progs pid))) as [|x r] eqn:ES.
+    { cbn in H. inversion H; subst. apply nth_single in Hn as [_ Hn]. discriminate. }
+    rewrite (exec_prod x) in H.
+    destruct (sraise x) as [e|] eqn:E1.
+    { cbn in H. inversion H; subst. apply nth_single in Hn as [_ Hn]. discriminate. }
+    destruct (fin x) eqn:E2.
+    { (* finishing step: at most an item without token *)
+      cbn [concat] in H. rewrite app_nil_r in H.
+      destruct (nwt_scan_logs (slogs x) (data_frames (emit x)) None) as [S1 S2].
+      destruct (logs_go CbRecord (slogs x)).
+      - rewrite (S1 eq_refl) in H. destruct (emit x) as [b0|]; cbn in H.
+        + destruct (nwt_all progs f w' _) as [rs' w''] eqn:E. inversion H; subst rs w2.
+          destruct k as [|k]; cbn [nth_error] in Hn; [discriminate|].
+          exfalso. exact (dead_no_token _ _ _ _ _ eq_refl (Nat.le_0_l 1) E _ _ _ Hn).
+        + inversion H; subst. apply nth_single in Hn as [_ Hn]. discriminate.
+      - destruct (S2 eq_refl) as [e He]. rewrite He in H. inversion H; subst. apply nth_single in Hn as [_ Hn]. discriminate. }
+    destruct (emit x) as [b0|] eqn:E3.
+    2:{ cbn in H. inversion H; subst. apply nth_single in Hn as [_ Hn]. discriminate. }
+    cbn [concat] in H. rewrite app_nil_r in H.
+    destruct (nwt_scan_logs (slogs x) [FData b0] None) as [S1 S2].
+    destruct (logs_go CbRecord (slogs x)) eqn:E4.
+    2:{ destruct (S2 eq_refl) as [e He]. rewrite He in H. inversion H; subst. apply nth_single in Hn as [_ Hn]. discriminate. }
+    rewrite (S1 eq_refl) in H. cbn [nwt_scan option_map] in H.
+    assert (Hkw : w_key w = key) by (destruct Hw; assumption). rewrite Hkw in H.
+    change {| ct_key := key; ct_cid := cid; ct_pid := curpid; ct_i := S i |} with (mkct key cid curpid (S i)) in H.
+    match type of H with context [nwt_all progs f w' ?s] => destruct (nwt_all progs f w' s) as [rs' w''] eqn:E end.
+    unfold resume_tok in H. cbn [s_ct s_kt] in H. inversion H; subst rs w2. clear H.
+    assert (Hcap' : cap (w_cfg w') = None) by (rewrite Hc'; exact Hcap).
+    destruct k as [|k]; cbn [nth_error] in Hn.
+    - inversion Hn; subst. split; [rewrite Nat.add_1_r; reflexivity|].
+      exists [b0]. cbn [good_prefix]. rewrite E1, E2, E3, E4. split; reflexivity.
+    - destruct (IH (S i) w' _ rs' w'' k b tok Hcap' Hw' eq_refl eq_refl eq_refl eq_refl E Hn) as [Ht [bs [Hg Hi]]].
+      split; [rewrite Ht; f_equal; f_equal; lia|].
+      exists (b0 :: bs). split.
+      + change (good_prefix (x :: r) (S (S k))) with
+          (match sraise x, fin x, emit x, logs_go CbRecord (slogs x) with
+           | None, false, Some b1, true => option_map (cons b1) (good_prefix r (S k)) | _, _, _, _ => None end).
+        rewrite E1, E2, E3, E4. rewrite (skipn_cons_next _ _ _ _ ES) in Hg. rewrite Hg. reflexivity.
+      + cbn [firstn items_batches flat_map app] in *. rewrite Hi. reflexivity.
+  Qed.
+End Resume.
